@@ -2477,3 +2477,98 @@ Section QuotThms.
     intro H. apply check_nfa_inv in H. destruct H as [-> _]. apply lq_pre_lang; assumption.
   Qed.
 End QuotThms.
+
+(* ------------------------------------------------------------------ *)
+(* eliminate_lambda as a public operation (shared with C07; names prefixed ops_) *)
+Section ElimOp.
+  Variable A : nfa.
+  Hypothesis Hv : valid_nfa A = true.
+  Variable e : eparts.
+  Hypothesis He : elim_parts A = Ok e.
+
+  Let R := assemble idn (e_states e) (n_syms A) (e_rowof e) (n_init A) (e_finals e).
+
+  Lemma e_rowof_eq : e_rowof e = elim_rowof A.
+  Proof. destruct (elim_parts_inv A e He) as [_ [H _]]. exact H. Qed.
+
+  Lemma elimop_rows_ok : rows_ok (e_states e) (n_syms A) (e_rowof e).
+  Proof.
+    intros x r Hx Er a l Hal. pose proof (es_in_states A Hv e He x Hx) as HxA.
+    assert (Hr : erow e x = r) by (unfold erow; rewrite Er; reflexivity).
+    split.
+    - assert (Hk : In a (map fst (erow e x))).
+      { rewrite Hr. apply in_map_iff. exists (a, l). auto. }
+      destruct (erow_key_sym A Hv e He x a HxA Hk) as [s [-> Hs]]. simpl. apply memb_In. exact Hs.
+    - intros y Hy. rewrite e_rowof_eq in Er. unfold elim_rowof in Er.
+      destruct (is_some (assoc x (n_trans A)) || nonempty (elim_new_syms A x)); [|discriminate].
+      injection Er as <-. unfold elim_row in Hal. pose proof (tab_entry _ _ _ _ Hal) as [Hk El].
+      apply (es_closed A e He x a y Hx). apply elim_edge_row. unfold elim_row. apply tab_tg. split; [exact Hk|].
+      rewrite <- El. exact Hy.
+  Qed.
+
+  Lemma elimop_fin_incl : incl (e_finals e) (e_states e).
+  Proof. intros f Hf. apply (es_finals A Hv e He) in Hf. apply Hf. Qed.
+
+  Lemma elimop_row0 : e_rowof e (n_init A) <> None \/ length (e_states e) <= 1.
+  Proof.
+    rewrite e_rowof_eq. unfold elim_rowof.
+    destruct (is_some (assoc (n_init A) (n_trans A)) || nonempty (elim_new_syms A (n_init A))) eqn:Ec; [left; discriminate|].
+    right. apply (NoDup_all_eq (e_states e) (n_init A)); [apply (es_NoDup A e He)|].
+    destruct (elim_parts_inv A e He) as [Hc _]. intros x Hx.
+    apply (closure_sound _ _ eqb_nat_ok _ _ _ _ Hc) in Hx.
+    induction Hx as [x Hx|x y Hr IH Hy]; [destruct Hx as [<-|[]]; reflexivity|].
+    subst x. exfalso. apply elim_succ in Hy. destruct Hy as [a Hy]. unfold EE, xedge, elim_rowof in Hy.
+    rewrite Ec in Hy. destruct Hy as [r [Er _]]. discriminate.
+  Qed.
+
+  Lemma elimop_valid : valid_nfa R = true.
+  Proof.
+    unfold R. apply asm_valid.
+    - apply idn_inj.
+    - apply elimop_rows_ok.
+    - apply (es_init A e He).
+    - apply elimop_fin_incl.
+    - apply (es_NoDup A e He).
+    - destruct (ops_valid_parts A Hv) as (_ & Hs & _). exact Hs.
+    - apply elimop_row0.
+  Qed.
+
+  Lemma elimop_lang : L_nfa R =L L_nfa A.
+  Proof.
+    intro w. unfold R. rewrite asm_lang.
+    2: apply idn_inj. 2: apply elimop_rows_ok. 2: apply (es_init A e He). 2: apply elimop_fin_incl.
+    rewrite e_rowof_eq. apply (elim_lang A Hv e He).
+  Qed.
+
+  (* no empty-string edge is left *)
+  Lemma elimop_no_eps p q : ~ n_edge R p None q.
+  Proof.
+    intro H. unfold n_edge in H.
+    assert (Hp : In p (map fst (n_trans R))).
+    { apply edge_assoc in H. destruct H as [r [Er _]]. eapply assoc_Some_key. exact Er. }
+    unfold R, assemble in Hp. simpl in Hp. apply in_map_iff in Hp. destruct Hp as [[p' r] [Ep Hin]]. simpl in Ep. subst p'.
+    apply in_flat_map in Hin. destruct Hin as [x [Hx Hin]].
+    destruct (e_rowof e x) eqn:Er; [|destruct Hin]. destruct Hin as [Hin|[]]. injection Hin as <- _.
+    apply (asm_targets idn (e_states e) (n_syms A) (e_rowof e) (n_init A) (e_finals e) (idn_inj _) x None q Hx) in H.
+    destruct H as [y [_ Hy]]. rewrite e_rowof_eq in Hy. eapply elim_no_eps_any. exact Hy.
+  Qed.
+End ElimOp.
+
+Section ElimOpThms.
+  Variable A : nfa.
+  Hypothesis Hv : valid_nfa A = true.
+
+  Theorem ops_elim_total : exists R, nfa_eliminate_lambda A = Ok R /\ valid_nfa R = true.
+  Proof.
+    destruct (elim_parts_some A Hv) as [e He]. eexists. unfold nfa_eliminate_lambda. rewrite He. simpl.
+    split; [apply check_nfa_ok|]; apply elimop_valid; assumption.
+  Qed.
+
+  Theorem ops_elim_lang R : nfa_eliminate_lambda A = Ok R ->
+    L_nfa R =L L_nfa A /\ (forall p q, ~ n_edge R p None q).
+  Proof.
+    unfold nfa_eliminate_lambda. destruct (elim_parts A) as [e|] eqn:He; [|discriminate]. simpl.
+    intro H. apply check_nfa_inv in H. destruct H as [-> _].
+    split; [apply elimop_lang; assumption|apply elimop_no_eps; assumption].
+  Qed.
+End ElimOpThms.
